@@ -245,6 +245,21 @@ func TextSpell(s string) string {
 	return b.String()
 }
 
+// aliasFor returns the shortest aliased namespace (other than the current
+// file's own) that is the callee's namespace or a dotted prefix of it.
+func aliasFor(p *Program, fq, ns string) string {
+	best := ""
+	for a, on := range p.Aliases {
+		if !on || a == ns {
+			continue
+		}
+		if strings.HasPrefix(fq, a+".") && (best == "" || len(a) < len(best)) {
+			best = a
+		}
+	}
+	return best
+}
+
 // UnparseCmd renders one command.
 func UnparseCmd(c Cmd, ns string, p *Program, st Style) string {
 	ex := func(e interface{}) string { return Unparse(e.(E), st) }
@@ -323,9 +338,12 @@ func UnparseCmd(c Cmd, ns string, p *Program, st Style) string {
 		spell, _ := c["spell"].(string)
 		switch {
 		case spell == "fq":
-		case spell == "alias" && p != nil && p.Aliases[Namespace(fq)] && Namespace(fq) != ns:
-			cns := Namespace(fq)
-			name = cns[strings.LastIndex(cns, ".")+1:] + "." + Short(fq)
+		case spell == "alias" && p != nil && aliasFor(p, fq, ns) != "":
+			// {alias a.b} lets "b.<rest>" name "a.b.<rest>": use the shortest
+			// aliased namespace that is a prefix of the callee's, so that <rest>
+			// may itself contain dots
+			a := aliasFor(p, fq, ns)
+			name = a[strings.LastIndex(a, ".")+1:] + fq[len(a):]
 		case Namespace(fq) == ns:
 			name = "." + Short(fq)
 		}
